@@ -125,6 +125,15 @@ void __vf_assert_fail(const char *id) { printf("ASSERTION FAILED: %s\n", id); ex
 void __vf_reached(void) { printf("REACHED\n"); }
 #endif
 void __vf_access(void *p, int w) {}
+/* std::list node linkage lives in libstdc++.so: _List_node_base { next, prev } */
+void x__ZNSt8__detail15_List_node_base7_M_hookEPS0_(P self, P pos) {
+  P prev = *(P*)(pos + 8);
+  *(P*)self = pos; *(P*)(self + 8) = prev; *(P*)prev = self; *(P*)(pos + 8) = self;
+}
+void x__ZNSt8__detail15_List_node_base9_M_unhookEv(P self) {
+  P next = *(P*)self, prev = *(P*)(self + 8);
+  *(P*)prev = next; *(P*)(next + 8) = prev;
+}
 /* ---- std::regex: the engine is libstdc++ and outside the claim; construction is inert and regex_search answers an arbitrary bool */
 static uint32_t rx_asked, rx_verdict, rx_len;
 #ifdef __CPROVER__
